@@ -983,3 +983,164 @@ func init() {
 			}
 		}})
 }
+
+// ---------------------------------------------------------------- C03.R12 nil-checked map lookups
+
+// derefUses lists instructions that dereference pointer value v directly.
+func derefUses(v ssa.Value) []ssa.Instruction {
+	var out []ssa.Instruction
+	if v.Referrers() == nil {
+		return out
+	}
+	for _, r := range *v.Referrers() {
+		switch x := r.(type) {
+		case *ssa.FieldAddr:
+			if x.X == v {
+				out = append(out, x)
+			}
+		case *ssa.UnOp:
+			if x.Op == token.MUL && x.X == v {
+				out = append(out, x)
+			}
+		case *ssa.IndexAddr:
+			if x.X == v {
+				out = append(out, x)
+			}
+		}
+	}
+	return out
+}
+
+func nilGuarded(in ssa.Instruction, v ssa.Value, okVal ssa.Value) bool {
+	for _, f := range DomFacts(in.Block()) {
+		if okVal != nil && f.Cond == okVal && f.Taken {
+			return true
+		}
+		b, ok := f.Cond.(*ssa.BinOp)
+		if !ok {
+			continue
+		}
+		var other ssa.Value
+		if b.X == v {
+			other = b.Y
+		} else if b.Y == v {
+			other = b.X
+		} else {
+			continue
+		}
+		if !isNilConst(other) {
+			continue
+		}
+		if (b.Op == token.NEQ && f.Taken) || (b.Op == token.EQL && !f.Taken) {
+			return true
+		}
+	}
+	return false
+}
+
+// paramDerefUnguarded: does fn dereference its idx-th parameter without a nil check?
+func (c *RuleCtx) paramDerefUnguarded(fn *ssa.Function, idx int, depth int) (bool, ssa.Instruction) {
+	if fn.Blocks == nil || idx >= len(fn.Params) || depth > 2 {
+		return false, nil
+	}
+	p := fn.Params[idx]
+	for _, u := range derefUses(p) {
+		if !nilGuarded(u, p, nil) {
+			return true, u
+		}
+	}
+	// passed on
+	if p.Referrers() != nil {
+		for _, r := range *p.Referrers() {
+			ci, ok := r.(ssa.CallInstruction)
+			if !ok {
+				continue
+			}
+			sc := ci.Common().StaticCallee()
+			if sc == nil || !c.P.inPkg(sc) {
+				continue
+			}
+			for i, a := range ci.Common().Args {
+				if a == ssa.Value(p) && !nilGuarded(r, p, nil) {
+					if bad, where := c.paramDerefUnguarded(sc, i, depth+1); bad {
+						return true, where
+					}
+				}
+			}
+		}
+	}
+	return false, nil
+}
+
+func init() {
+	register(&Rule{ID: "C03.R12", Props: []string{"C03"}, Engine: "E3",
+		Title:   "on inbound paths a pointer obtained from a map lookup is nil-checked (or its comma-ok tested) before it is dereferenced, including through callees it is passed to — peers choose the keys (stream ids, request sequence numbers)",
+		MinInst: 8,
+		Run: func(c *RuleCtx) {
+			ks := keyer{}
+			// only paths driven by inbound packets: there the peer chooses the keys. (The scheduler
+			// maps on the send side are keyed by local stream ids under a selection invariant.)
+			region := c.P.TransitiveCallees(c.Fn("Association.handleInbound"))
+			for _, fn := range c.P.Funcs {
+				if !region[fn] {
+					continue
+				}
+				name := c.P.FuncName(fn)
+				forEachInstr(fn, func(in ssa.Instruction) {
+					lk, ok := in.(*ssa.Lookup)
+					if !ok {
+						return
+					}
+					if _, isMap := lk.X.Type().Underlying().(*types.Map); !isMap {
+						return
+					}
+					var v, okVal ssa.Value
+					if lk.CommaOk {
+						for _, r := range *lk.Referrers() {
+							if ex, isEx := r.(*ssa.Extract); isEx {
+								if ex.Index == 0 {
+									v = ex
+								} else {
+									okVal = ex
+								}
+							}
+						}
+					} else {
+						v = lk
+					}
+					if v == nil {
+						return
+					}
+					if _, isPtr := v.Type().Underlying().(*types.Pointer); !isPtr {
+						return
+					}
+					bad := ""
+					for _, u := range derefUses(v) {
+						if !nilGuarded(u, v, okVal) {
+							bad = "dereferenced at " + c.Pos(u)
+						}
+					}
+					if v.Referrers() != nil {
+						for _, r := range *v.Referrers() {
+							ci, isCall := r.(ssa.CallInstruction)
+							if !isCall {
+								continue
+							}
+							sc := ci.Common().StaticCallee()
+							if sc == nil || !c.P.inPkg(sc) || nilGuarded(r, v, okVal) {
+								continue
+							}
+							for i, a := range ci.Common().Args {
+								if a == v {
+									if isBad, where := c.paramDerefUnguarded(sc, i, 0); isBad {
+										bad = fmt.Sprintf("passed unchecked to %s, which dereferences it at %s", c.P.FuncName(sc), c.P.InstrPos(where))
+									}
+								}
+							}
+						}
+					}
+					c.Check(bad == "", ks.key("lookup-nil-checked@"+name), c.Pos(in), "every dereference of the looked-up pointer is guarded", "map lookup result may be nil (absent key) and is "+bad+": a crafted key crashes the endpoint")
+				})
+			}
+		}})
+}
